@@ -231,3 +231,43 @@ func Harness_C02_ExportListsExactlyTheUsedPairs() {
 	listed := verifrt.Any(verifrt.All(d2 == d0, n2 == n0), verifrt.All(d2 == d1, n2 == n1))
 	verifrt.Assert("C02/import/used-iff-listed", after == listed)
 }
+
+func init() {
+	verifrt.Register("Harness_C17_ExportLongLists", Harness_C17_ExportLongLists)
+}
+
+// the lists of an export are complete whatever their length: 130 entries per keyed registry (more than
+// any page size used by the SDK's pagination helpers), keys concrete, values symbolic where the entry
+// has one (token pairs excepted: their keys are hashes, whose order the solver would have to decide
+// 130! ways). Exported and re-imported, every entry is still there.
+func Harness_C17_ExportLongLists() {
+	const n = 130
+	e1 := verifrt.NewEnv()
+	k1 := newKeeper(e1)
+	ctx := e1.Ctx
+	k1.SetOwner(ctx, "o")
+	k1.SetAttesterManager(ctx, "a")
+	k1.SetPauser(ctx, "p")
+	k1.SetTokenController(ctx, "t")
+	lim := verifrt.NondetIntNonNil("limit")
+	addr := verifrt.NondetBytes("addr", 32)
+	verifrt.Assume(len(addr) == 32)
+	for i := 0; i < n; i++ {
+		s := string([]byte{'a' + byte(i/26), 'a' + byte(i%26)})
+		k1.SetUsedNonce(ctx, types.Nonce{SourceDomain: uint32(i % 3), Nonce: uint64(i)})
+		k1.SetAttester(ctx, types.Attester{Attester: s})
+		k1.SetPerMessageBurnLimit(ctx, types.PerMessageBurnLimit{Denom: s, Amount: lim})
+		k1.SetRemoteTokenMessenger(ctx, types.RemoteTokenMessenger{DomainId: uint32(i), Address: addr})
+	}
+	g := ExportGenesis(ctx, k1)
+	verifrt.Cover("exported")
+	verifrt.Assert("C17/export/long-lists-complete", verifrt.All(len(g.UsedNoncesList) == n, len(g.AttesterList) == n,
+		len(g.PerMessageBurnLimitList) == n, len(g.TokenMessengerList) == n))
+	e2 := verifrt.NewEnv()
+	k2 := newKeeper(e2)
+	InitGenesis(e2.Ctx, k2, *g)
+	g2 := ExportGenesis(e2.Ctx, k2)
+	verifrt.Assert("C17/export-import/long-lists-reimported", verifrt.All(len(g2.UsedNoncesList) == n, len(g2.AttesterList) == n,
+		len(g2.PerMessageBurnLimitList) == n, len(g2.TokenMessengerList) == n,
+		k2.GetUsedNonce(e2.Ctx, types.Nonce{SourceDomain: uint32((n - 1) % 3), Nonce: uint64(n - 1)})))
+}
